@@ -205,7 +205,63 @@ def history_obligation(item):
     return res
 
 
+def corpus():
+    """Scripts that together exercise every allocator / cache / table of the transpiler: feature scripts, every
+    statement kind at the top of the loop and inside a helper, literal-only initialisers through int()/max()/len()."""
+    fam = list(skeletons.feature_family())
+    fam += [(o, s_) for o, s_ in skeletons.ctx_family("quick", contexts=("top", "fn", "else", "setup"))]
+    lit = H + ("wait = int(2.5 * 100)\nbig = max(100, 250)\nn = len('abcd')\nf = float(3)\nm = min(4, 9) + abs(-2)\n"
+               "while True:\n    sleep(max(100, 250))\n    sleep(int(1.5 * 10))\n    mon.write(wait + big + n + m)\n    mon.write(f)\n")
+    fam.append(("lit/casts_and_builtins", lit))
+    fam.append(("lit/casts_and_builtins_again", lit.replace("wait", "pause")))
+    return fam
+
+
+def corpus_obligation(item):
+    """Concrete cross-check: the whole corpus is transpiled in ONE process, forwards and then backwards; every output
+    must be the text a fresh interpreter produces for that script alone."""
+    _, oid, chunk, nchunks = item
+    import json
+    res = Result(oid, "holds", nontrivial=False)
+    fam = corpus()
+    mine = fam[chunk::nchunks]
+    prog = ("import sys,json\nfrom Reduino.transpile.parser import parse\nfrom Reduino.transpile.emitter import emit\n"
+            "srcs=json.loads(sys.stdin.read())\nout=[]\n"
+            "for s in srcs:\n    try:\n        out.append(emit(parse(s)))\n    except ValueError as e:\n        out.append('REJECT')\n"
+            "print(json.dumps(out))")
+
+    def run(srcs):
+        r = subprocess.run([sys.executable, "-c", prog], input=json.dumps(srcs), capture_output=True, text=True,
+                           env=dict(os.environ, PYTHONHASHSEED="0"))
+        return json.loads(r.stdout) if r.returncode == 0 else None
+    srcs = [s_ for _, s_ in fam]
+    seq = run(srcs + srcs[::-1])
+    if seq is None:
+        res.verdict, res.detail = "harness-error", "corpus run failed"
+        return res
+    fwd, bwd = seq[:len(srcs)], seq[len(srcs):][::-1]
+    res.queries = len(mine) + 1
+    res.sample = {"obligation": oid, "corpus": len(fam), "checked_against_fresh_process": len(mine)}
+    for k in range(chunk, len(fam), nchunks):
+        fresh = run([srcs[k]])
+        if fresh is None:
+            res.verdict, res.detail = "harness-error", "fresh run failed for " + fam[k][0]
+            return res
+        for label, got in (("after the scripts before it", fwd[k]), ("after the whole corpus and the scripts behind it", bwd[k])):
+            if got != fresh[0]:
+                import difflib
+                d = [x for x in difflib.unified_diff(fresh[0].split("\n"), got.split("\n"), lineterm="", n=0)][2:6]
+                res.verdict = "violation"
+                res.detail = (f"script {fam[k][0]} transpiled {label} in one process differs from a fresh process: "
+                              + " | ".join(d))[:400]
+                res.witness = {"script": srcs[k], "position": k, "class": "history"}
+                return res
+    return res
+
+
 def _work(item):
+    if item[0] == "corpus":
+        return corpus_obligation(item)
     if item[0] == "order":
         return order_obligation(item)
     return history_obligation(item)
@@ -229,6 +285,8 @@ def run(tier, seed, only=None):
     l1 = H + "xs = [1, 2, 3]\nxs.append(4)\nwhile True:\n    mon.write(len(xs))\n"
     l2 = H + "ys = [1, 2, 3]\nwhile True:\n    mon.write(len(ys))\n"
     items.append(("history", "history/same_list_literal", l1, l2))
+    for c in range(6):
+        items.append(("corpus", f"history/corpus[{c}/6]", c, 6))
     if only:
         items = [i for i in items if only in i[1]]
     results = run_obligations(items, _work)
